@@ -38,6 +38,12 @@ type Config struct {
 	Seed             int64
 	KeepSamples      int
 	SleepSets        bool
+	// DelayBound >= 0 switches the scheduler to delay-bounded exploration: the
+	// alternatives at every scheduling point are ordered (GoOrder: the way a
+	// single-P Go runtime would order them), choosing the k-th alternative costs
+	// k delays and only schedules of total cost <= DelayBound are explored.
+	DelayBound       int
+	GoOrder          bool
 	Trace            bool
 }
 
